@@ -3,3 +3,5 @@ import SrModel.Adaptive
 import SrModel.Thermal
 import SrModel.Loops
 import SrModel.PW
+import SrModel.Interp
+import SrModel.H5
